@@ -953,9 +953,12 @@ def run(ctx):
         'of the in/out parameter, PEC slice table, writer footprints, dtype '
         'propagation and failure-message placement are read off the AST.')
     ctx.assumptions = [
-        'A5 scipy Krylov contract: info == 0 <=> ||b - A x|| <= max(rtol '
-        '||b||, atol); the callback is not necessarily called with the '
-        'returned iterate',
+        'A5 (narrowed after defect F30): the return code of the scipy '
+        'Krylov solvers is NOT taken as a certificate for the returned '
+        'iterate (they test a recursively updated residual); assumed only: '
+        'info == maxiter when the limit is reached, info < 0 on breakdown, '
+        'and the callback is not necessarily called with the returned '
+        'iterate',
         'A4 Field.fx/fy/fz are views of Field._field; Field.field = v writes '
         'in place (checked: C01.R3.inplace)',
         'the operator behind residual() is the system operator (C02)',
